@@ -80,9 +80,9 @@ def tables : Tables :=
   { kinds := QGen.C20.kinds, needNonEmpty := QGen.C20.needNonEmpty, minLen := QGen.C20.minLen,
     firstKind := QGen.C20.firstKind, lastKinds := QGen.C20.lastKinds, limits := QGen.C20.limits }
 
-/-- an object list: `none` = the `None` placeholder, `some m` = an object with `m` outcomes
-(states and gates: `m = 1`) -/
-abbrev ObjList := List (Option Nat)
+/-- an object list: `none` = the `None` placeholder, `some sh` = an object with outcome shape `sh`
+(POVM: `nums_local_outcomes`, measurement process: `shape`; e.g. `[2]`, or `[2, 3]` for a tensor product; states and gates: `[]`) -/
+abbrev ObjList := List (Option (List Nat))
 
 structure Lists where
   state : ObjList
@@ -277,8 +277,8 @@ def runOps (T : Tables) : ExpState → List Op → List (Option Err) × ExpState
 inductive QT
   | state
   | gate
-  | povm (m : Nat)
-  | mproc (m : Nat)
+  | povm (sh : List Nat)
+  | mproc (sh : List Nat)
   | ens (shape : List Nat)     -- StateEnsemble
   | dist (shape : List Nat)    -- MultinomialDistribution
 deriving Repr, DecidableEq
@@ -298,7 +298,7 @@ def CalcErr.toString : CalcErr → String
 def pyIndex {α : Type} (l : List α) (i : Int) : Option α :=
   if 0 ≤ i then l[i.toNat]? else if -i ≤ (l.length : Int) then l[l.length - (-i).toNat]? else none
 
-def qtOf (name : String) (m : Nat) : QT :=
+def qtOf (name : String) (m : List Nat) : QT :=
   if name = "state" then .state else if name = "gate" then .gate
   else if name = "povm" then .povm m else .mproc m
 
@@ -330,15 +330,15 @@ def compose (e1 e2 : QT) : Except PyExc QT :=
     | .gate, .gate => .ok .gate
     | .gate, .mproc m => .ok (.mproc m)
     | .mproc m, .gate => .ok (.mproc m)
-    | .mproc m1, .mproc m2 => .ok (.mproc (m1 * m2))
+    | .mproc m1, .mproc m2 => .ok (.mproc (m1 ++ m2))
     | .gate, .state => .ok .state
     | .gate, .ens sh => .ok (.ens sh)
-    | .mproc m, .state => .ok (.ens [m])
-    | .mproc m, .ens sh => .ok (.ens (sh ++ [m]))
+    | .mproc m, .state => .ok (.ens m)                    -- MultinomialDistribution(ps, shape=elem1.shape)
+    | .mproc m, .ens sh => .ok (.ens (sh ++ m))           -- shape = elem2.prob_dist.shape + elem1.shape
     | .povm m, .gate => .ok (.povm m)
-    | .povm m, .mproc m2 => .ok (.povm (m2 * m))
-    | .povm m, .state => .ok (.dist [m])
-    | .povm m, .ens sh => .ok (.dist (sh ++ [m]))
+    | .povm m, .mproc m2 => .ok (.povm [prodNat m2 * prodNat m])
+    | .povm m, .state => .ok (.dist [prodNat m])          -- MultinomialDistribution(prob, prob.shape): FLAT
+    | .povm m, .ens sh => .ok (.dist (sh ++ m))           -- shape + elem1.nums_local_outcomes
     | _, _ => .error .typeError
 
 /-- `temp = element_list[-1]; for elem in reversed(element_list[:-1]): temp = compose(elem, temp)` where
@@ -451,7 +451,7 @@ def allSchedules (c : Cls) (nStates nPovms : Nat) : List Schedule :=
       .items [Item.mk "state" i, Item.mk "mprocess" 0, Item.mk "povm" j]
 
 def listOfCode (code n : Nat) : ObjList :=
-  if code = 0 then [] else if code = 1 then [none] else List.replicate n (some 2)
+  if code = 0 then [] else if code = 1 then [none] else List.replicate n (some [2])
 
 /-- the lists the class hands to `Experiment` given its `states`/`povms` parameters of these sizes -/
 def tomoLists (sp : TomoSpec) (nStates nPovms : Nat) : Lists :=
@@ -485,11 +485,16 @@ def tomoCtor (T : Tables) (c : Cls) (nStates nPovms : Nat) (a : SchedArg) : Exce
 
 /-! ## driver (text protocol) -/
 
+/-- `-` | one char per object (`N` = None, digit `m` = shape `[m]`) | with a `.`: objects separated by `.`, each `N` or
+dimensions joined by `x` (`2x3`) -/
 def parseObjList? (s : String) : Option ObjList :=
   if s = "-" then some []
+  else if s.contains '.' then
+    ((s.splitOn ".").filter (· ≠ "")).mapM fun t =>
+      if t = "N" then some none else ((t.splitOn "x").mapM String.toNat?).map some
   else s.toList.mapM fun c =>
     if c = 'N' then some none
-    else if c.isDigit then some (some (c.toNat - '0'.toNat)) else none
+    else if c.isDigit then some (some [c.toNat - '0'.toNat]) else none
 
 def parseLists? (a b c d : String) : Option Lists := do
   let a ← parseObjList? a; let b ← parseObjList? b; let c ← parseObjList? c; let d ← parseObjList? d
@@ -550,7 +555,10 @@ def showSchedules (ss : List Schedule) : String :=
   if ss.isEmpty then "~" else "|".intercalate (ss.map showSchedule)
 
 def showObjList (l : ObjList) : String :=
-  if l.isEmpty then "-" else String.join (l.map fun | none => "N" | some m => toString m)
+  if l.isEmpty then "-"
+  else if l.all (fun | none => true | some [d] => d < 10 | some _ => false) then
+    String.join (l.map fun | none => "N" | some sh => String.join (sh.map toString))
+  else ".".intercalate (l.map fun | none => "N" | some sh => "x".intercalate (sh.map toString)) ++ "."
 
 def showLists (L : Lists) : String :=
   s!"{showObjList L.state} {showObjList L.povm} {showObjList L.gate} {showObjList L.mprocess}"
